@@ -387,7 +387,13 @@ def gen_items(rng, used, shape=None, free_hint=157):
         items.append(f(10))
     if rng.random() < 0.08:
         items.insert(rng.randrange(len(items) + 1), ("missing", "nothere.bin"))
+    if rng.random() < 0.12:
+        # refused before anything is read from the side: name longer than 8, extension longer than 3
+        items.insert(rng.randrange(len(items) + 1), ("file", rng.choice(TOO_LONG), T.content_for(rng, rng.choice([0, 1, 300]))))
     return items
+
+
+TOO_LONG = ["ninechars.bas", "toolongname.bin", "a.abcd", "longextension.text", "x.bas,ab", "123456789", "noext_but_long", "ab.c.defg"]
 
 
 def gen_aside(rng, nfiles=None, weird=True, full_catalog=False):
